@@ -6,7 +6,8 @@ VERIF_DIR=${VERIF_CLONE:-/verif}
 V=/tmp/mechverif-variant; [ -n "$VERIF_CLONE" ] && V=$(dirname $VERIF_CLONE)/variant
 mkdir -p $V/repo $V/evidence
 rsync -a --delete --exclude target --exclude .git /repo/ $V/repo/
-( cd $V/repo && git apply "$P" ) || { echo "patch does not apply"; exit 2; }
+# the scratch copy has no .git: a patch stored with LF line ends against a CRLF file needs --ignore-whitespace there
+( cd $V/repo && { git apply "$P" 2>/dev/null || git apply --ignore-whitespace "$P"; } ) || { echo "patch does not apply"; exit 2; }
 rc=0
 for prop in "$@"; do
   out=$(cd $VERIF_DIR && MECH_REPO=$V/repo VERIF_EVIDENCE_DIR=$V/evidence python3 verif.py $prop 2>&1)
